@@ -2263,11 +2263,9 @@ func CreateCertificateRequest(rand io.Reader, template *CertificateRequest, sign
 	}
 	tbsCSR.Raw = tbsCSRContents
 
+	// an SM2 signer is handed the message itself, every other signer the digest (also for the default algorithm)
 	digest := tbsCSRContents
-	switch template.SignatureAlgorithm {
-	case SM2WithSM3, SM2WithSHA1, SM2WithSHA256, UnknownSignatureAlgorithm:
-		break
-	default:
+	if _, isSM2 := signer.Public().(*sm2.PublicKey); !isSM2 {
 		h := hashFunc.New()
 		h.Write(tbsCSRContents)
 		digest = h.Sum(nil)
@@ -2579,11 +2577,9 @@ func CreateRevocationList(rand io.Reader, template *RevocationList, issuer *Cert
 		return nil, err
 	}
 
+	// an SM2 signer is handed the message itself (also for SM2WithSHA1 / SM2WithSHA256), every other signer the digest
 	digest := tbsCertListContents
-	switch hashFunc {
-	case SM3:
-		break
-	default:
+	if _, isSM2 := priv.Public().(*sm2.PublicKey); !isSM2 {
 		h := hashFunc.New()
 		h.Write(tbsCertListContents)
 		digest = h.Sum(nil)
